@@ -19,7 +19,8 @@ RULE = ("Hypothesis draws a twice-differentiable scalar recipe (depth <= 3; gene
         "solve(method='trust-constr') hands to SciPy for minimize(e) and maximize(e) are compared with a "
         "second-order forward-mode jet at regular points (distance >= 0.1 from kinks/poles).  Non-trivial = "
         "some off-diagonal reference entry is non-zero, or a fast path / non-own V was used."
-        '  Also: parameters are updated after compilation and the compiled, symbolic and solver-held Hessians are judged again at the new values.')
+        '  Also: parameters are updated after compilation and the compiled, symbolic and solver-held Hessians are judged again at the new values.'
+        ' Also (round 6): x ** p with a Parameter exponent (value 2, 3, 4) evaluated where the base is exactly zero; a name-equal earlier model (same Parameter names, other values) first.')
 BUDGET = {"quick": {"workers": 16, "examples": 700}, "thorough": {"workers": 16, "examples": 3000}}
 ASSUMPTIONS = ["jet rules validated against mpmath at start-up", "points closer than 0.1 to a singular set are not judged"]
 MANIFEST = {
